@@ -15,7 +15,10 @@ structure with the elements named by its own exclusion list removed.  Over every
   - a missing exclusion list, a request that is not hosts / vars / a direct child of them, or a missing
     signature must end in PlaybookVerificationError
   - a play whose digest is on the revocation list, or whose signature was made for another core, must be
-    rejected by verify().
+    rejected by verify()
+  - large plays (up to 64 KiB serialised): hash_play / the digest shown to GPG is SHA-256 of the WHOLE
+    serialisation (computed in one piece from the model's text), and changing one character at any serialised
+    offset (block boundaries in particular) changes it to SHA-256 of the edited serialisation.
 """
 import base64
 import binascii
@@ -24,6 +27,7 @@ import hashlib
 import io
 import json
 import os
+import re
 
 from harness.common import VERIF, enc, dec, run_driver
 
@@ -719,6 +723,279 @@ def touches_excluded_only(play, edited):
     return spec_core(play) == spec_core(edited) and spec_core(play)[0] == "core" and canon(play) != canon(edited)
 
 
+# ------------------------------------------------------------------ large plays: every byte is under the digest
+
+LARGE_FIXED = [4095, 4096, 4097, 8191, 8192, 8193, 8194, 16382, 16383, 16384, 16385, 16386,
+               65534, 65535, 65536, 65537, 65538]
+PLAINCH = "abcdefghijklmnopqrstuvwxyz0123456789 -_=/.;|&$(){}[]<>:,+*#@!%^~ABCDEFXYZ"   # nothing the serializer escapes or quotes around
+PLAIN_RE = re.compile(r"^S\d{5}:")
+
+
+def gen_large_play(rng, target):
+    """a play whose serialisation after exclusion is `target` bytes (long inline scripts, many tasks, long lists);
+    strings that start with S<5 digits>: are unique, ASCII and printed verbatim, so a serialised offset inside
+    one of them maps back to one character of the play"""
+    ctr = [0]
+
+    def plain(n):
+        ctr[0] += 1
+        head = "S%05d:" % ctr[0]
+        return head + "".join(rng.choices(PLAINCH, k=max(0, n - len(head))))
+
+    def est(o):
+        return len(PlaybookSerializer.serialize(o).encode("utf-8")) + 2
+
+    shape = rng.choice(["script", "tasks", "lists", "mixed"])
+    p = {"name": plain(14),
+         "hosts": rng.choice(["all", ["a", "b"], {"web": "w1"}]),
+         "become": rng.random() < 0.5,
+         "vars": {EXCL: "/hosts,/vars/insights_signature", SIG: "UExBQ0VIT0xERVI=",
+                  "insights_remediation": plain(24), "note": "\u00e9\n'\"\\ \u200b \u20ac"},
+         "tasks": [{"name": plain(10), "shell": plain(40)}]}
+    size = est({k: v for k, v in p.items() if k != "hosts"})
+    room = target - size - 64
+    if shape == "script":
+        p["tasks"].append({"name": plain(10), "shell": plain(max(8, room - 60)), "when": "x is defined"})
+    else:
+        while room > 120:
+            kind = shape if shape != "mixed" else rng.choice(["tasks", "lists", "ints"])
+            if kind == "tasks":
+                t = {"name": plain(rng.randint(8, 30)), rng.choice(["shell", "command"]): plain(min(room, rng.randint(60, 700)))}
+                if rng.random() < 0.4:
+                    t["register"] = plain(9)
+                if rng.random() < 0.3:
+                    t["args"] = {"chdir": plain(12), "creates": "/tmp/\u00fc", 7: None}
+            elif kind == "lists":
+                n = max(1, min(room // 20, rng.randint(5, 80)))
+                t = {"name": plain(9), "yum": {"name": [plain(rng.randint(8, 16)) for _ in range(n)], "state": "present"}}
+            else:
+                n = max(1, min(room // 8, rng.randint(10, 200)))
+                t = {"name": plain(9), "set_fact": {"ports": [rng.randrange(-9, 70000) for _ in range(n)], "on": True, "off": None}}
+            e = est(t)
+            if e > room:
+                break
+            p["tasks"].append(t)
+            room -= e
+    # exact length: stretch or shrink the filler (first task's script, ASCII, one byte per character)
+    for _ in range(3):
+        ans, d, raw = impl_excl(to_ruamel(p))
+        if raw is None:
+            return p
+        delta = target - len(raw)
+        if delta == 0:
+            break
+        f = p["tasks"][0]["shell"]
+        if delta > 0:
+            p["tasks"][0]["shell"] = f + "".join(rng.choices(PLAINCH, k=delta))
+        elif len(f) + delta >= 8:
+            p["tasks"][0]["shell"] = f[:len(f) + delta]
+        else:
+            # shrink the biggest plain string instead
+            best = max((pp for pp in paths_of(p) if isinstance(get_at(p, pp), str) and PLAIN_RE.match(get_at(p, pp))),
+                       key=lambda pp: len(get_at(p, pp)))
+            v = get_at(p, best)
+            p = rebuild(p, best, lambda n: v[:max(8, len(v) + delta)])
+    return p
+
+
+def plain_spans(play, tbytes):
+    """[(start, end, path)] byte ranges of the serialisation that are the verbatim content of one plain string value
+    outside the excluded elements"""
+    spans = []
+    for pp in paths_of(play):
+        if pp and pp[0][2] == "hosts":
+            continue
+        v = get_at(play, pp)
+        if isinstance(v, str) and PLAIN_RE.match(v) and not (pp and pp[-1][0] == "k" and False):
+            needle = b"'" + v.encode("ascii") + b"'"
+            i = tbytes.find(needle)
+            if i >= 0 and tbytes.find(needle, i + 1) < 0:
+                spans.append((i + 1, i + 1 + len(v), pp))
+    spans.sort()
+    return spans
+
+
+def locate(spans, k, slack=24):
+    """(offset, path, index in the string) of the covered offset nearest to k"""
+    best = None
+    for a, b, pp in spans:
+        if a <= k < b:
+            return k, pp, k - a
+        c = a if k < a else b - 1
+        if abs(c - k) <= slack and (best is None or abs(c - k) < abs(best[0] - k)):
+            best = (c, pp, c - a)
+    return best
+
+
+def edit_offsets(rng, L, quick):
+    """serialised offsets to edit, most telling first: at and around multiples of 4096/4097 (first, last, then the
+    others), the ends, multiples of 512/1024, random positions; the caller stops after its budget"""
+    def trio(m):
+        return [m, m - 1, m + 1]
+    first, rest, small = [], [], []
+    for B in (4096, 4097):
+        ms = list(range(B, L + 2, B))
+        for m in ms[:1] + ms[-1:]:
+            first += trio(m)
+        mid = ms[1:-1]
+        rng.shuffle(mid)
+        for m in mid:
+            rest += trio(m)
+    for B in (512, 1024):
+        for m in range(B, L + 2, B):
+            if m % 4096:
+                small += trio(m)
+    ends = [1, 63, 64, 65, L - 65, L - 64, L - 2]
+    rnd = [rng.randrange(L) for _ in range(6 if quick else 40)]
+    if quick:
+        # interleave so that a small budget still sees every class
+        rng.shuffle(small)
+        rest_it, small_it = iter(rest), iter(small)
+        mixed = []
+        for _ in range(max(len(rest), len(small))):
+            for it in (rest_it, small_it, small_it):
+                v = next(it, None)
+                if v is not None:
+                    mixed.append(v)
+        order = first + ends + rnd + mixed
+    else:
+        order = first + ends + rnd + rest + small
+    seen, out = set(), []
+    for k in order:
+        if 0 <= k < L and k not in seen:
+            seen.add(k)
+            out.append(k)
+    return out
+
+
+def path_json(pp):
+    return [[st[0], st[2]] for st in pp]
+
+
+def set_in(obj, pj, value):
+    """assign inside a (ruamel or plain) object along a json path; returns the old value"""
+    for kind, key in pj[:-1]:
+        obj = obj[key]
+    old = obj[pj[-1][1]]
+    obj[pj[-1][1]] = value
+    return old
+
+
+def large_edit_check(obj, pj, idx, ch, tbytes, offset, base_digest):
+    """edit one character in place, ask verify_play, undo; -> (problem or None, digest hex)"""
+    cur = obj
+    for kind, key in pj:
+        cur = cur[key]
+    old = str(cur)
+    set_in(obj, pj, old[:idx] + ch + old[idx + 1:])
+    try:
+        a, d = impl_vplay(obj)
+    finally:
+        set_in(obj, pj, old)
+    want = hashlib.sha256(tbytes[:offset] + ch.encode("ascii") + tbytes[offset + 1:]).digest()
+    if a != "ok":
+        return "verify_play of the edited play ended in %r" % a, None
+    if d == base_digest:
+        return "the digest shown to GPG did not change", d
+    if d != want:
+        return "the digest shown to GPG is not SHA-256 of the whole serialisation", d
+    return None, d
+
+
+def run_large(chk, quick):
+    rng = chk.rng
+    targets = list(LARGE_FIXED if not quick else LARGE_FIXED[:12] + [65535, 65536, 65537])
+    targets += [rng.randrange(3072, 40960) for _ in range(8 if quick else 120)]
+    targets += [rng.choice([64, 512, 4096]) * rng.randrange(8, 80) + rng.choice([-9, -8, -1, 0, 1, 55, 56]) for _ in range(4 if quick else 60)]
+    plays = [gen_large_play(rng, max(3072, min(t, 66000))) for t in targets]
+    out = run_driver("C18", ["vplay\t-\t" + wire(p) for p in plays])
+    impl, model, vcases, vimpl, vlines = [], [], [], [], []
+    for t, p, m in zip(targets, plays, out):
+        f = m.split("\t")
+        if f[0] != "ok":
+            impl.append("?")
+            model.append(m)
+            continue
+        text = dec(f[1])
+        tbytes = text.encode("utf-8")
+        dm = hashlib.sha256(tbytes).digest()
+        L = len(tbytes)
+        chk.count("large:len=%s" % ("target" if L == t else "off-target"))
+        chk.count("large:%dKiB" % (L // 1024) if L < 8192 else "large:%dKiB+" % (8 * (L // 8192)))
+        chk.case(("large", canon(p)), True)
+        obj = to_ruamel(p)
+        ans, d1, raw = impl_excl(obj)
+        a2, d2 = impl_vplay(obj)
+        hx = lambda d: binascii.hexlify(d).decode() if d else "-"
+        impl.append("%s\t%s\t%s\t%s" % (ans.split("\t")[0], hx(d1), a2, hx(d2)))
+        model.append("ok\t%s\tok\t%s" % (hx(dm), hx(dm)))
+        case = {"op": "large-digest", "play": to_json(p), "bytes": L}
+        if d1 is not None and d1 != hashlib.sha256(raw).digest():
+            chk.failure("hash_play is not SHA-256 of the %d serialised bytes" % len(raw), case)
+        if d1 is not None and d2 is not None and d1 != d2:
+            chk.failure("verify_play shows GPG a digest other than hash_play(serialize_play(exclude(play))) on a %d-byte play" % L, case)
+        if d2 is not None and d2 != dm:
+            chk.failure("the digest shown to GPG is not SHA-256 (computed in one piece) of the %d-byte serialisation" % L, case)
+        if d2 is None:
+            continue
+        # (b) sensitivity at offsets spread over the whole serialisation
+        spans = plain_spans(p, tbytes)
+        done = set()
+        budget = max(14, min(60, 500000 // L)) if quick else 10 ** 9     # an edit of a 64 KiB play costs ~50 ms
+        for k in edit_offsets(rng, L, quick):
+            if len(done) >= budget:
+                break
+            loc = locate(spans, k)
+            if loc is None:
+                chk.count("large:offset-not-in-a-plain-string")
+                continue
+            if loc[0] in done:
+                continue
+            off, pp, idx = loc
+            done.add(off)
+            oldc = chr(tbytes[off])
+            ch = "x" if oldc != "x" else "y"
+            pj = path_json(pp)
+            problem, _ = large_edit_check(obj, pj, idx, ch, tbytes, off, d2)
+            chk.count("large:edits")
+            for B in (4097, 4096, 1024, 512):
+                if min(off % B, B - off % B) <= 1:
+                    chk.count("large:edit-at-multiple-of-%d" % B)
+                    break
+            if problem:
+                chk.failure("large play (%d bytes): one character changed at serialised offset %d, %s" % (L, off, problem),
+                            {"op": "large-edit", "play": to_json(p), "path": pj, "index": idx, "new": ch, "offset": off})
+        # verify() end to end: the signature and the revocation entry are made from the digest computed in one piece
+        revoked = rng.random() < 0.5
+        p2 = copy.deepcopy(p)
+        p2["vars"][SIG] = fake_sign(dm)
+        rdoc = {"name": "revocation list", "timestamp": 1632510092,
+                "vars": {EXCL: "/vars/insights_signature", SIG: "UExBQ0VIT0xERVI="},
+                "revoked_playbooks": [{"name": "other", "hash": hashlib.sha256(b"other").hexdigest()}]}
+        if revoked:
+            rdoc["revoked_playbooks"].append({"name": "big", "hash": hx(dm)})
+        _, rd, rraw = impl_excl(to_ruamel(rdoc))
+        rdoc["vars"][SIG] = fake_sign(rd)
+        doc_bytes = dump_yaml([to_ruamel(rdoc)]).encode("utf-8")
+        rplain = from_ruamel(pv.yaml.load(doc_bytes)[0])
+        a = impl_verify(to_ruamel(p2), doc_bytes)
+        enc_tab = lambda tab: ",".join(enc(x) + ":" + enc(y) for x, y in tab) if tab else "-"
+        sigtab = [(p2["vars"][SIG], text), (rdoc["vars"][SIG], rraw.decode("utf-8"))]
+        hashtab = [(hashlib.sha256(b"other").hexdigest(), "other")] + ([(hx(dm), text)] if revoked else [])
+        vlines.append("verify\t-\t%s\t%s\t%s\t%s" % (enc_tab(sigtab), enc_tab(hashtab), wire(rplain), wire(p2)))
+        vcases.append({"bytes": L, "revoked": revoked})
+        vimpl.append(a)
+        chk.count("large:verify:%s/%s" % ("revoked" if revoked else "clean", a))
+        if a == "ok" and revoked:
+            chk.failure("verify() accepted a %d-byte play whose SHA-256 is on the revocation list" % L,
+                        {"op": "large-digest", "play": to_json(p), "bytes": L})
+    chk.compare("large plays: hash_play and digest shown to GPG = sha256(model serialisation)",
+                [{"bytes": t} for t in targets], impl, model)
+    if vlines:
+        chk.compare("large plays: verify (signature and revocation made from the one-piece digest)",
+                    vcases, vimpl, run_driver("C18", vlines))
+
+
 # ------------------------------------------------------------------ the check
 
 class Pool(object):
@@ -773,8 +1050,8 @@ def load_corpus():
 def run(chk):
     rng = chk.rng
     quick = chk.tier == "quick"
-    n_vals = 4000 if quick else 60000
-    n_plays = 1100 if quick else 10000
+    n_vals = 3500 if quick else 60000
+    n_plays = 900 if quick else 10000
     n_edits = 5 if quick else 8
     n_verify = 500 if quick else 4000
     chk.rule = ("values and plays built from an alphabet of quotes, backslashes, control and zero-width characters, the "
@@ -782,6 +1059,10 @@ def run(chk):
                 "each play with several single edits (change, retype, insert, delete, reorder, wrap/unwrap/split/move, re-key, "
                 "stringify, delimiter-collision merges) anywhere in the tree incl. inside hosts/vars; exclusion lists valid, "
                 "invalid, missing, non-string; about a third of the plays go through the verifier's own YAML loader; "
+                "plus large plays (serialised 3 KiB - 64 KiB, lengths 4095..4097, 8191..8194, 16382..16386, 65535..65537 and random) "
+                "whose digest (hash_play, the one shown to GPG, the one compared with the revocation list) is compared with "
+                "SHA-256 computed in one piece over the model's serialisation, each with single-character edits at and around "
+                "multiples of 512/1024/4096/4097 of the serialised offset; "
                 "non-trivial = distinct canonical play whose exclusion succeeds (a digest exists)")
     chk.assumptions = [
         "SHA-256 is treated as injective (the theorems are about the serialised text; the harness compares hash_play with hashlib on the model's text)",
@@ -1026,6 +1307,9 @@ def run(chk):
     if cases:
         chk.sample({"verify": cases[0], "impl": impl[0]})
 
+    # ---------------- stream 5: large plays (3 KiB - 64 KiB): the digest covers every byte
+    run_large(chk, quick)
+
     # ---------------- regression witnesses of the repaired defect 5a7421c (non-string list, non-mapping vars)
     for c in corpus:
         if c.get("op") == "vplay":
@@ -1088,5 +1372,21 @@ def replay(data):
         print("impl verify: %s; digest on the list: %s; core equals signed core: %s" % (a, revoked, spec_core(q) == spec_core(p)))
         want = spec_core(q)
         bad = (a == "ok" and (revoked or spec_core(q) != spec_core(p))) or (a != "verr" and (want[0] == "must-verr" or signature_missing(q)))
+    elif op in ("large-digest", "large-edit"):
+        p = from_json(c["play"])
+        m = run_driver("C18", ["vplay\t-\t" + wire(p)])[0].split("\t")
+        tbytes = dec(m[1]).encode("utf-8") if m[0] == "ok" else b""
+        obj = to_ruamel(p)
+        ans, d1, raw = impl_excl(obj)
+        a2, d2 = impl_vplay(obj)
+        dm = hashlib.sha256(tbytes).digest()
+        print("serialisation: model %d bytes, implementation %s bytes; sha256(model text)=%s hash_play=%s shown to GPG=%s" % (
+            len(tbytes), len(raw) if raw else "-", binascii.hexlify(dm).decode()[:16], binascii.hexlify(d1 or b"").decode()[:16],
+            binascii.hexlify(d2 or b"").decode()[:16]))
+        bad = d1 != dm or d2 != dm or (raw is not None and d1 != hashlib.sha256(raw).digest())
+        if op == "large-edit" and d2 is not None:
+            problem, d = large_edit_check(obj, c["path"], c["index"], c["new"], tbytes, c["offset"], d2)
+            print("edit at serialised offset %d: %s" % (c["offset"], problem or "digest changes to SHA-256 of the edited serialisation"))
+            bad = bad or problem is not None
     print("property violated on this input" if bad else "property holds on this input")
     return 1 if bad else 0
